@@ -44,6 +44,10 @@ def run_cases(cases, res, stratum):
                     # an object holding real values becomes complex by an ELEMENT write: its dtype string says so at once
                     xe = fx.Fxp([0, 0], s, n, nf); xe[0] = 1j * 2.0 ** (-nf)
                     obs['elem_complex'] = (xe.dtype, bool(np_iscomplex(xe)))
+            if n <= 52:
+                # resizing a SCALED holder with dtype=<string> reproduces the format the string denotes, the complex suffix included
+                xs_ = fx.Fxp([1.0, 1.0], True, 8, 2, scale=2, bias=1); xs_.resize(dtype=fxp_str(s, n, nf, cx))
+                obs['scaled_resize'] = (bool(xs_.signed), int(xs_.n_word), int(xs_.n_frac), 'complex' in xs_.dtype, xs_.dtype == xs_.get_dtype())
             # the second parser of dtype strings (utils.get_sizes_from_dtype, reached through fxp_sum(dtype=...))
             try:
                 sm = fx.fxp_sum(fx.Fxp([0, 0], s, n, nf), dtype=fxp_str(s, n, nf, cx)); obs['sum_dtype'] = (bool(sm.signed), int(sm.n_word), int(sm.n_frac))
@@ -96,6 +100,8 @@ def run_cases(cases, res, stratum):
             res.fail(dict(c, spelling=bads[0][0]), 'C12: fxp_sum(dtype=<spelling>) (the second dtype parser) does not give the format the spelling denotes', expected=(s, n, nf), got=bads[0][1]); k += len(obs['parse']); continue
         if obs['sum_dtype'] != (s, n, nf):
             res.fail(c, 'C12: fxp_sum(dtype=x.dtype) (utils.get_sizes_from_dtype) does not reproduce the format', expected=(s, n, nf), got=obs['sum_dtype']); k += len(obs['parse']); continue
+        if obs.get('scaled_resize') is not None and obs['scaled_resize'] != (s, n, nf, cx, True):
+            res.fail(c, 'C12: resize(dtype=<string>) of a scaled object does not reproduce the format the string denotes (sizes, complex suffix)', expected=(s, n, nf, cx, True), got=obs['scaled_resize']); k += len(obs['parse']); continue
         if obs.get('elem_complex') is not None and obs['elem_complex'] != (fxp_str(s, n, nf, True), True):
             res.fail(c, 'C12: after a complex element was written into an object of real values its dtype string does not carry the complex suffix (stale attribute)', expected=(fxp_str(s, n, nf, True), True), got=obs['elem_complex']); k += len(obs['parse']); continue
         if obs.get('ctor_real') is not None and ('complex' in obs['ctor_real'][0]) != cx:
